@@ -20,10 +20,10 @@ EvPut    == Consume("put") /\ Ev.w \in Workers /\ WPut(Ev.w)
 EvExit0  == Consume("exit0") /\ Ev.w \in Workers /\ ws[Ev.w] = "leave0" /\ WExit(Ev.w)
 EvExit9  == Consume("exit9") /\ Ev.w \in Workers /\ ws[Ev.w] = "leave9" /\ WExit(Ev.w)
 EvDGet   == Consume("dget") /\ PGet
-EvCheck  == Consume("exitcode") /\ ppc = "check" /\ toCheck # <<>> /\ Head(toCheck) = Ev.w /\ PCheck
+\* the order in which exit codes are read / retired names restarted is not part of the property: any order is accepted
+EvCheck  == Consume("exitcode") /\ ppc = "check" /\ PCheckW(Ev.w)
 EvYield  == Consume("yield") /\ ppc = "yield" /\ got = Ev.w /\ PYield
-EvStart  == Consume("start") /\ ppc = "decide" /\ retired # {} /\ ~(pool = {} /\ (~Drain \/ doneQ = <<>>))
-            /\ Ev.w = (CHOOSE x \in retired : \A y \in retired : x <= y) /\ PDecide
+EvStart  == Consume("start") /\ PStartW(Ev.w)
 \* tolerate_fails = False: once the parent has decided to raise it re-reads exit codes and terminates the live workers
 EvRaiseCk == Consume("exitcode") /\ ppc = "raise" /\ UNCHANGED vars
 EvKill    == Consume("kill") /\ ppc = "raise" /\ Ev.w \in Workers /\ ws[Ev.w] \in {"idle", "busy", "leave0", "leave9"}
@@ -32,7 +32,7 @@ EvKill    == Consume("kill") /\ ppc = "raise" /\ Ev.w \in Workers /\ ws[Ev.w] \i
 EventStep == EvTGet \/ EvPut \/ EvExit0 \/ EvExit9 \/ EvDGet \/ EvCheck \/ EvYield \/ EvStart \/ EvRaiseCk \/ EvKill
 Silent == /\ tid <= Len(Traces) /\ UNCHANGED tvars
           /\ \/ PCheckNone
-             \/ (ppc = "decide" /\ (retired = {} \/ (pool = {} /\ (~Drain \/ doneQ = <<>>))) /\ PDecide)
+             \/ (ppc = "decide" /\ (retired = {} \/ CanBreak) /\ PDecide)
 
 Reset == /\ taskQ' = [i \in 1..(N + W) |-> IF i <= N THEN i ELSE STOP]
          /\ doneQ' = <<>> /\ ws' = [w \in Workers |-> "idle"] /\ cnt' = [w \in Workers |-> 0] /\ cur' = [w \in Workers |-> 0]
